@@ -263,3 +263,53 @@ fn register_reactors_empty_bundle() { register_reactors_kernel(true) }
 #[kani::stub(<core::any::TypeId as crate::vh::PEq>::eq, crate::vh::stub_typeid_eq)]
 #[kani::unwind(4)]
 fn register_reactors_two_triggers() { register_reactors_kernel(false) }
+
+//-------------------------------------------------------------------------------------------------------------------
+// public trigger entry points down to the queued reactions (C14 / C01): entry -> deferred syscall -> schedule_* system
+//-------------------------------------------------------------------------------------------------------------------
+/// `ReactCommands::broadcast(event)` applied: exactly the registered listeners of THAT event type get one reaction each,
+/// in registration order, sharing one data entity that holds the event's own payload; listeners of other event types and
+/// reactors of other kinds get nothing.
+#[kani::proof]
+#[kani::stub(core::any::TypeId::of, crate::vh::stub_typeid_of)]
+#[kani::stub(<core::any::TypeId as crate::vh::PEq>::eq, crate::vh::stub_typeid_eq)]
+#[kani::unwind(4)]
+fn entry_broadcast_reaches_exactly_its_listeners()
+{
+    let mut world = World::new();
+    world.m_drop_table::<bevy::model::cell::LeakAll>();
+    let mut cache = ReactCache::default();
+    let l1 = SystemCommand(ent(41)); let l2 = SystemCommand(ent(42));
+    crate::react::react_cache::verif_h::put_broadcast::<Ea>(&mut cache, ReactorHandle::Persistent(l1), ReactorHandle::Persistent(l2));
+    world.insert_resource(cache);
+    world.insert_resource(crate::ecs::auto_despawn::verif_h::mk_despawner());
+    let mut captured: Vec<ReactionCommand> = Vec::with_capacity(4);
+    world.m_capture(&mut captured);
+    world.m_set_cmd_mode(CmdMode::Immediate);      // the deferred syscall closure is applied at once (its type cannot be named)
+    let wp = &mut world as *mut World;
+    let payload: u8 = kani::any();
+    let other_type: bool = kani::any();
+    {
+        let mut rc = ReactCommands{ commands: cmds(wp) };
+        if other_type { rc.broadcast(Eb(payload)); } else { rc.broadcast(Ea(payload)); }
+    }
+    if other_type
+    {
+        assert!(captured.len() == 0, "C01/C14: a broadcast of a type nobody listens to schedules nothing");
+    }
+    else
+    {
+        assert!(captured.len() == 2, "C14/C01: one trigger call = one dispatch = one reaction per listener of that type");
+        match (&captured[0], &captured[1])
+        {
+            (ReactionCommand::BroadcastEvent{ data_entity: d0, reactor: r0 }, ReactionCommand::BroadcastEvent{ data_entity: d1, reactor: r1 }) =>
+            {
+                assert!(*r0 == l1 && *r1 == l2 && d0 == d1, "C01: registration order, one shared data entity");
+                assert!(crate::react::event_readers::verif_h::broadcast_payload(world.get::<BroadcastEventData<Ea>>(*d0).unwrap()).0 == payload, "C03: the event own payload");
+            }
+            _ => panic!("C01: a broadcast schedules BroadcastEvent reactions only"),
+        }
+    }
+    kani::cover!(other_type, "other type"); kani::cover!(!other_type, "listened type");
+    std::mem::forget(captured); std::mem::forget(world);
+}
